@@ -75,10 +75,10 @@ CHECKS["C04"] = dict(
    note="trusted: harness/ref/schema.go (content derivation and extractor, D3 in DESIGN.md)",
    ref="DESIGN.md section 3 (C04)")
 CHECKS["C14"] = dict(
-   technique="property-based differential testing of generated serializer compositions: plans parsed from generated Python and MATLAB code versus a reference plan derived from the model IR",
-   text="Exploration: for every protocol step (reader and writer side) and every record field of generated packages (incl. imported packages and generic records) the composition of element encodings is parsed out of the generated Python binary module and the generated MATLAB +binary classes (constructor-expression parser plus a constructor table; MATLAB's column-major shape reversal undone) and compared with the plan derived from the IR: field order, fixed lengths, array ranks/shapes, map key/value encodings, enum base types, union case order and null handling, generic arguments. ~16 000 step/field comparisons per quick run. Unknown constructors are counted and skipped.",
-   note="trusted: the constructor tables in harness/ref/plan.go; MATLAB is only read as text (no interpreter); the C++ and Python NDJSON backends are checked dynamically by C01-C03",
-   ref="DESIGN.md section 3 (C14)")
+   technique="property-based differential testing of generated serializer compositions: plans parsed from generated C++ (binary), Python (binary and NDJSON) and MATLAB (binary) code versus a reference plan derived from the model IR; NDJSON union tagging decisions versus the documented rule",
+   text="Exploration: for every protocol step (reader and writer side, every overload) and every record field of generated packages (incl. imported packages, generic records and aliases) the composition of element encodings is parsed out of four generated backends - C++ binary/protocols.cc (Write.../Read... template compositions, alias functions expanded, enum base types, using-aliases and member types taken from types.h), Python binary.py, Python ndjson.py (converter constructors) and the MATLAB +binary classes (column-major shape reversal undone) - and compared with the plan derived from the IR: field order, fixed lengths, array ranks/shapes, map key/value encodings, integer widths, enum base types, union case order and null handling, generic arguments. For every Python NDJSON UnionConverter the tagged/untagged decision and the JSON datatypes that select each case are compared with the documented rule (untagged iff all cases map to distinct JSON datatypes). ~37 000 comparisons per quick run. Constructs outside the parsers' vocabulary are counted and skipped.",
+   note="trusted: the constructor tables in harness/ref/plan*.go; MATLAB is only read as text (no interpreter); the C++ NDJSON backend (overload-driven, no composition text) is checked dynamically by C02/C03; unions inside the region of the two open C02 findings (flags case, bare type-parameter case) are counted, not compared",
+   ref="DESIGN.md section 3 (C14), 7.8")
 CHECKS["C07"] = dict(
    technique="model-based (state-machine) property testing: generated API call sequences checked against a reference step automaton per API",
    text="Exploration: protocol shapes (1-8 steps, any stream pattern, plus hostile sizes 127-130 / 255-257 steps walked to the far end) x four generated call sequences - C++ writer (write / batch write / end / close), C++ reader (read / batch read with capacity / close, scripted source), Python writer (write / write iterable / close), Python reader (read / iterate n / close) - mostly along the legal path with arbitrary deviations, each ending at its first rejected call. The generated abstract base classes (which own the step state) are driven through stub implementations, C++ compiled, Python executed. Every call the reference automaton accepts must succeed with exactly the scripted data and end-of-stream indication; the first call it rejects must raise. Corners the documents leave open are not judged.",
